@@ -194,6 +194,14 @@ H_CTX = ['T ::= %s', 'T ::= SEQUENCE { f %s }', 'T ::= SEQUENCE { f %s OPTIONAL,
          'T ::= SEQUENCE { f INTEGER } (WITH COMPONENTS { f (%s) })', 'T ::= %s (CONSTRAINED BY { })', 'T ::= INSTANCE OF %s', 'T ::= TYPE-IDENTIFIER.&Type (%s)']
 H_ENV = ['', 'A ::= CHOICE { a INTEGER, b SEQUENCE { x NULL } }', 'A ::= INTEGER', 'A ::= A', 'A ::= CHOICE { a a < A }', 'A ::= CHOICE { a CHOICE { b NULL } }',
          'CLS ::= CLASS { &id INTEGER UNIQUE, &Type } A CLS ::= { &id 1, &Type NULL }', 'A ::= SEQUENCE { x A OPTIONAL }', 'A ::= ENUMERATED { a }']
+H_VALUES = ['Ne-Ty ::= SEQUENCE { c CHOICE { one INTEGER, two BOOLEAN } } v Ne-Ty ::= { c one:4 }',
+            'Ne-Ty ::= SET { c-d CHOICE { one-x INTEGER, two BOOLEAN } } v Ne-Ty ::= { c-d one-x:4 }',
+            'Ne-Ty ::= SEQUENCE { s SEQUENCE { c CHOICE { one INTEGER } } } v Ne-Ty ::= { s { c one:4 } }',
+            'Ne-Ty ::= CHOICE { c CHOICE { one INTEGER, two BOOLEAN } } v Ne-Ty ::= c : one : 4',
+            'Ne-Ty ::= SEQUENCE { e ENUMERATED { aa, bb } DEFAULT aa, c CHOICE { one INTEGER } DEFAULT one:1 }',
+            'Ne-Ty ::= SEQUENCE OF CHOICE { one INTEGER, two BOOLEAN } v Ne-Ty ::= { one:4, two:TRUE }',
+            'Ne-Ty ::= SEQUENCE { b BIT STRING { f-g(0) } } v Ne-Ty ::= { b { f-g } }',
+            'Ne-Ty ::= SEQUENCE { l SEQUENCE OF SEQUENCE { x-y INTEGER } } v Ne-Ty ::= { l { { x-y 1 }, { x-y 2 } } }']
 H_EMPTY = ['ENUMERATED { }', 'CHOICE { }', 'SEQUENCE { }', 'SET { }', 'BIT STRING { }', 'INTEGER { }', 'ENUMERATED { ... }', 'CHOICE { ... }', 'SEQUENCE { ... }',
            'SEQUENCE { [[ ]] }', 'INTEGER ()', 'IA5String (FROM (""))', 'IA5String (FROM ("" | "a"))', 'IA5String (FROM ("".."z"))', 'IA5String (FROM ("a"..""))',
            'IA5String (SIZE (1) ^ FROM (""))', 'IA5String (SIZE (1) ^ FROM ("" .. "z"))', 'IA5String (FROM ("a".."z" ^ "0".."9"))',
@@ -211,6 +219,7 @@ def hazard_modules(ck):
         for c in H_CTX:
             for r in H_REFS:
                 out.append('%s\n%s' % (e, c.replace('%s', r)))
+    out += H_VALUES
     for e in H_EMPTY:
         out.append('E ::= %s' % e)
         out.append('S ::= SEQUENCE { f %s OPTIONAL }' % e)
@@ -233,8 +242,9 @@ def gen_cases(ck):
         add(wrap(m), 'reference-cycle')
     hz = hazard_modules(ck)
     if quick:
-        fixed = hz[-3 * len(H_EMPTY):]              # the degenerate bodies: always all of them
-        rest = hz[:-3 * len(H_EMPTY)]
+        nfix = 3 * len(H_EMPTY) + len(H_VALUES)
+        fixed = hz[-nfix:]                          # the degenerate bodies and nested values: always all of them
+        rest = hz[:-nfix]
         ck.rng.shuffle(rest)
         hz = fixed + rest[:500]
     for m in hz:
